@@ -51,11 +51,13 @@ class MultivariateNormal(TMultivariateNormal, Distribution):
                 cs2 = covariance_matrix.size(-2)
                 if not (ms == cs1 and ms == cs2):
                     raise ValueError(f"Wrong shapes in {self._repr_sizes(mean, covariance_matrix)}")
-            self.loc = mean
+            batch_shape = torch.broadcast_shapes(mean.shape[:-1], covariance_matrix.shape[:-2])
+            # Like torch's MultivariateNormal, keep loc broadcast to the batch shape (log_prob relies on it)
+            expandable = torch.is_tensor(mean) and mean.dim() > 0
+            self.loc = mean.expand(*batch_shape, mean.size(-1)) if expandable else mean
             self._covar = covariance_matrix
             self.__unbroadcasted_scale_tril = None
             self._validate_args = validate_args
-            batch_shape = torch.broadcast_shapes(self.loc.shape[:-1], covariance_matrix.shape[:-2])
 
             event_shape = self.loc.shape[-1:]
 
